@@ -11,7 +11,7 @@ pub fn spec() -> PropSpec {
     PropSpec {
         id: "C07",
         level: "model_checking",
-        rule: "hole-program exploration through the real exec loop: all programs of length <= L (quick 5, thorough 6/7) over {Push c, Pop, Dup, JumpIf, Halt, Repeat, RepeatEnd, Compute, ComputeEnd, Alloc}, for every (cost function, total limit) configuration: small limits {0,1,2,3,5,8,13,21} x {const 1, const 2, Push free, Compute heavy}; zero cost and huge costs/limits {2^62, MAX} x {2^63, MAX-1, MAX} over the loop-free sub-alphabet; directed breadth 50 and 1000; both arithmetic profiles. Oracle = reference with one shared running total in u128. states = distinct (program, configuration), transitions = reference steps. non-trivial = reference executed >= 2 ops",
+        rule: "hole-program exploration through the real exec loop: all programs of length <= L (quick 5, thorough 6/7) over {Push c, Pop, Dup, JumpIf, Halt, Repeat, RepeatEnd, Compute, ComputeEnd, Alloc}, for every (cost function, total limit) configuration: small limits {0,1,2,3,5,8,13,21} x {const 1, const 2, Push free, Compute heavy}; zero cost and huge costs/limits {2^62, MAX} x {2^63, MAX-1, MAX}, and 'only Pop costs' {2^62, 2^63, MAX} x the same limits (a Compute reached with the whole budget left), over the loop-free sub-alphabet; directed breadth 50 and 1000; both arithmetic profiles. Oracle = reference with one shared running total in u128. states = distinct (program, configuration), transitions = reference steps. non-trivial = reference executed >= 2 ops",
         assumptions: &[
             "a ComputeEnd met by a non-child VM is not specified (masked)",
             "when a Compute fails, whether the surfaced failure is out-of-gas or a child's own error is not specified (children run concurrently); only Err-at-the-Compute is compared",
@@ -57,6 +57,13 @@ pub fn configs(tier: Tier) -> Vec<(Cost, u64, bool, usize)> {
     }
     for &limit in &[1u64 << 63, u64::MAX - 1, u64::MAX] {
         for cost in [Cost::Const(1), Cost::Const(1 << 62), Cost::Const(u64::MAX), Cost::Const(0)] {
+            v.push((cost, limit, true, l_big));
+        }
+    }
+    // only Pop costs: the Compute is reached with the whole budget left, the children's sum
+    // meets / exceeds / overflows it
+    for &limit in &[1u64 << 63, u64::MAX - 1, u64::MAX] {
+        for cost in [Cost::PopHeavy(1 << 62), Cost::PopHeavy(1 << 63), Cost::PopHeavy(u64::MAX)] {
             v.push((cost, limit, true, l_big));
         }
     }
